@@ -35,7 +35,7 @@ ASSUMPTIONS = [
     "non-body parts of a case are read through string coercion (some typed reading of the string must be acceptable)",
 ]
 MIN_EVALUATIONS = {"quick": 20000, "thorough": 300000}
-MIN_NONTRIVIAL = {"quick": 5000, "thorough": 60000}
+MIN_NONTRIVIAL = {"quick": 2000, "thorough": 20000}
 REACH_FLOORS = {"values_positive": 3000, "values_negative": 5000, "cases_seen": 3000, "cases_negative": 1500}
 SHARD_TIMEOUT = {"quick": 900, "thorough": 5400}
 
